@@ -6,7 +6,7 @@ use super::BRANCH_NODE_SIZE;
 use crate::{
     beatree::{
         allocator::PageNumber,
-        ops::bit_ops::{bitwise_memcpy, reconstruct_key},
+        ops::bit_ops::{bitwise_memcpy, reconstruct_key, separator_len},
         Key,
     },
     io::{page_pool::Page, FatPage, PagePool},
@@ -417,6 +417,10 @@ pub fn get_key(node: &BranchNode, index: usize) -> Key {
     reconstruct_key(prefix, node.raw_separator(index))
 }
 
+/// The largest difference, in bits, between the prefix length of a base node and the one of the
+/// node being built for which [`BranchNodeBuilder::push_chunk`] shifts the separators in bulk.
+const MAX_SHIFTED_PREFIX_LEN_DIFFERENCE: usize = 32;
+
 pub struct BranchNodeBuilder {
     branch: BranchNode,
     index: usize,
@@ -504,6 +508,27 @@ impl BranchNodeBuilder {
             base.prefix_len() as isize - self.branch.prefix_len() as isize;
         let is_prefix_extension = bit_prefix_len_difference.is_positive();
         let bit_prefix_len_difference = bit_prefix_len_difference.abs() as usize;
+
+        if bit_prefix_len_difference > MAX_SHIFTED_PREFIX_LEN_DIFFERENCE {
+            // The chunk-wise shifting below moves every separator by the difference between the
+            // two prefix lengths and is only correct while that difference stays well within one
+            // 64-bit chunk. Prefix lengths that far apart need keys sharing very long prefixes and
+            // are rare: re-encode the separators one by one.
+            let mut updated = updated.peekable();
+            for (i, base_index) in (from..to).enumerate() {
+                let key = get_key(base, base_index);
+                let pn = match updated.peek() {
+                    Some((updated_index, new_pn)) if *updated_index == i => {
+                        let pn = new_pn.0;
+                        updated.next();
+                        pn
+                    }
+                    _ => base.node_pointer(base_index),
+                };
+                self.push(key, separator_len(&key), pn);
+            }
+            return;
+        }
 
         // 1. copy and update cells
         // self.separator_bit_offset is the end offset of the last inserted separator
